@@ -8,7 +8,7 @@ from core import derived_rng
 from util import call, quiet
 
 REQUIRED_THEOREMS = ['Usid.C09.change_count', 'Usid.C09.counts_strict', 'Usid.C09.sizes',
-                     'Usid.C09.order_is_rate', 'Usid.C09.unit_values']
+                     'Usid.C09.order_is_rate', 'Usid.C09.unit_values', 'Usid.C09.rebuild_indices']
 RULE = ('regular grids of 1-4 dimensions, sizes 1-5 (biased to 1, equal sizes), every/random storage permutation, '
         'position- and spectroscopic-shaped, INCLUDING as many or more dimensions than points; get_sort_order, '
         'get_dimensionality, get_unit_values (is_spec given, and None where the shape is unambiguous), '
